@@ -781,7 +781,22 @@ func concFinish(run *ev.Run, results []shardResult, err error, rule string) int 
 			}
 		}
 	}
+	var racePassInfo map[string]any
+	if _, has := RaceBodies[run.ID]; has {
+		// Memory that concurrent requests share without synchronisation: see race.go.
+		reports, total, ran, rerr := racePass(run.ID)
+		if rerr != nil {
+			run.HarnessErr = rerr
+			return run.Finish()
+		}
+		for _, rr := range reports {
+			run.Violate("data-race:"+rr.Key, fmt.Sprintf("while concurrent requests are served, two goroutines touch the same memory with no synchronisation between them (%s): the requests are not isolated from each other. Race detector report:\n%s", rr.Key, rr.Text),
+				map[string]any{"check": run.ID, "race": rr.Key})
+		}
+		racePassInfo = map[string]any{"ran": ran, "reports": total, "reports_with_dirk_code_on_both_sides": len(reports), "bodies": "the requests of every scenario run by real goroutines (no scheduler) on the real ruler, locker, rules and store, four processors, three rounds each, in a child built with -race"}
+	}
 	run.Coverage = map[string]any{
+		"race_detector_pass":  racePassInfo,
 		"evaluations":         execs,
 		"distinct_nontrivial": nontrivial,
 		"rule":                rule,
@@ -797,4 +812,82 @@ func concFinish(run *ev.Run, results []shardResult, err error, rule string) int 
 		"per_scenario": per,
 	}
 	return run.Finish()
+}
+
+// concRaceBodies runs the requests of every scenario once more with real goroutines and no scheduler (race.go): the
+// real ruler, locker, rules and store, four processors, three rounds per scenario.
+func concRaceBodies(scs []CScenario) error {
+	old := runtime.GOMAXPROCS(4)
+	defer runtime.GOMAXPROCS(old)
+	e, err := newConcEnv()
+	if err != nil {
+		return err
+	}
+	defer e.close()
+	for _, cs := range scs {
+		nkeys := 0
+		for _, th := range cs.Threads {
+			for _, r := range th {
+				for _, k := range r.Keys {
+					if k+1 > nkeys {
+						nkeys = k + 1
+					}
+				}
+			}
+		}
+		for round := 0; round < 3; round++ {
+			ctx := context.Background()
+			lk, err := syncmaplocker.New(ctx)
+			if err != nil {
+				return err
+			}
+			rl, err := goruler.New(ctx, goruler.WithLocker(lk), goruler.WithRules(e.rules))
+			if err != nil {
+				return err
+			}
+			keys := e.freshKeys(nkeys, cs.DescKeys)
+			type reqCtx struct {
+				ctx    context.Context
+				cancel context.CancelFunc
+			}
+			ctxs := map[[2]int]*reqCtx{}
+			for ti, th := range cs.Threads {
+				for ri, r := range th {
+					rc := &reqCtx{ctx: ctx}
+					if r.Cancel != "" {
+						rc.ctx, rc.cancel = context.WithCancel(ctx)
+						if r.Cancel == "pre" {
+							rc.cancel()
+						}
+					}
+					ctxs[[2]int{ti, ri}] = rc
+				}
+			}
+			done := make(chan struct{})
+			var wg sync.WaitGroup
+			for ti, th := range cs.Threads {
+				wg.Add(1)
+				go func(ti int, th []CReq) {
+					defer wg.Done()
+					for ri, r := range th {
+						if r.Kind == "cancel" {
+							if rc := ctxs[[2]int{r.Target[0], r.Target[1]}]; rc != nil && rc.cancel != nil {
+								rc.cancel()
+							}
+							continue
+						}
+						runReq(ctxs[[2]int{ti, ri}].ctx, rl, keys, r)
+					}
+				}(ti, th)
+			}
+			go func() { wg.Wait(); close(done) }()
+			select {
+			case <-done:
+			case <-time.After(30 * time.Second):
+				// Requests that wait on each other are the explorer's business; what the detector has logged so far stands.
+				return nil
+			}
+		}
+	}
+	return nil
 }
